@@ -23,6 +23,11 @@ for pid in ids:
         "level_note": c["level_note"],
         "technique": c.get("technique", "Lean 4 theorems about a hand-written model; model tied to /repo by differential correspondence check with spec oracle"),
     })
+_kf = json.load(open(os.path.join(os.path.dirname(os.path.abspath(__file__)), "known_findings.json")))["findings"]
+_open = sorted({"%s %s" % (f["property"], f["key"]) for f in _kf if f["status"] == "finding"})
+_fixed = sorted({f.get("commit", "?") for f in _kf if f["status"] == "fixed"})
+NOTES = ("Genuine defects found were repaired in /repo by %d separate 'fix:' commits (known_findings.json lists them as fixed, "
+         "with witnesses in corpus/); %d remain recorded findings: %s." % (len(_fixed), len(_open), "; ".join(_open)))
 m = {
     "version": 1,
     "setup_cmd": "./setup.sh",
@@ -43,7 +48,7 @@ m = {
     ],
     "checks": checks,
     "not_applicable": na,
-    "notes": "Genuine defects found were repaired in /repo by separate 'fix:' commits (known_findings.json lists them as fixed, with witnesses in corpus/); one remains a recorded finding (C19 uniform-f32-returns-end).",
+    "notes": NOTES,
 }
 json.dump(m, open("MANIFEST.json", "w"), indent=1)
 print("claimed:", [c["property_id"] for c in checks])
